@@ -9,6 +9,7 @@ UNIT_PROPS = {
     "identity": ["C19", "C04", "C11", "C12"],
     "worker_auth": ["C12"],
     "pktline": ["C13"],
+    "storage_clean": ["C28"],
 }
 
 LIMITER_GROUP = ["new_establishes_invariant", "refill_contract", "refill_amount_bounded", "take_contract"]
@@ -62,5 +63,12 @@ PROPS = {
         "technique": "Verus gate idiom on extracted Worker::is_authorized/_process: sink upload_pack has precondition authorized(remote, header.repo); Doc::is_visible_to proved against its definition",
         "explanation": "Worker::is_authorized returns Ok only if the seeding policy of the requested repository is not Block and the identity document is visible to the requester; Worker::_process can reach the upload_pack sink (whose precondition is exactly that predicate for the same remote and the repository named in the header) only through that gate. Doc::is_visible_to is proved equal to: public, or on the allow list, or a delegate.",
         "not_decided": "Store reads (seed_policy, repository, identity_doc) return arbitrary values tied to ghost state; request header parsing (which repo id the header names) is string-level code (C13 covers its panic-freedom only); upload_pack itself (git subprocess) is the sink, not verified.",
+    },
+    "C28": {
+        "vx": ["storage_clean"],
+        "kx": [],
+        "technique": "Verus sink preconditions on the extracted Repository::clean / Storage::clean: Reference::delete requires a non-protected namespace, Repository::remove requires that the local node has no signed refs; loop invariants over the remote and reference loops",
+        "explanation": "Repository::clean (both loops, with `continue`) is verified: every reference deleted lies in a namespace that is neither the local key nor a delegate key, and every id reported deleted is unprotected. Storage::clean calls Repository::remove only when SignedRefsAt::load found no signed refs for the local key, and otherwise only Repository::clean.",
+        "not_decided": "Assumed: references_glob(refs/namespaces/<id>/*) yields only refs of namespace <id>; find_reference returns the named ref; the map/collect chain building the delegate key set yields exactly the delegates; derive(Ord/PartialEq) on the key type is lawful. libgit2 itself is not verified.",
     },
 }
